@@ -21,7 +21,7 @@ let rec int_of_nat = function O -> 0 | S n -> 1 + int_of_nat n
 let event_of_tok (t:string) : event =
   let num () = n_of_int (int_of_string (String.sub t 1 (String.length t - 1))) in
   match t with
-  | "DR" -> Dial Refused | "DS" -> Dial AcceptedSilent | "DB" -> Dial BadHandshake
+  | "DR" -> Dial Refused | "DS" | "DZ" -> Dial AcceptedSilent | "DB" -> Dial BadHandshake
   | "DH" -> Dial HandshakeThenDropped | "DC" -> Dial ClosedNormally | "DE" -> Dial Established
   | "X" -> Drop | "T" -> Stop false | "t" -> Stop true
   | "F" -> SdkFail true | "G" -> SdkFail false
